@@ -221,6 +221,9 @@ func startPlugin(c *Case, rec *recorder) (*httpin.Plugin, func()) {
 	if c.ES {
 		config.EmulateMode = "elasticsearch"
 	}
+	if c.Meta {
+		config.Meta = cfg.MetaTemplates{"remote_addr": "{{ .remote_addr }}", "z": "{{ index .params \"z\" }}", "uuid": "{{ .request_uuid }}"}
+	}
 	if err := cfg.SetDefaultValues(config); err != nil {
 		panic(err)
 	}
@@ -261,7 +264,11 @@ func newRequest(q *Req, body io.ReadCloser) *http.Request {
 		RequestURI:    q.Path,
 		ContentLength: -1,
 	}
-	r.Header.Set("Content-Type", "application/json")
+	if q.ContentType != "" {
+		r.Header.Set("Content-Type", q.ContentType)
+	} else {
+		r.Header.Set("Content-Type", "application/json")
+	}
 	if q.gzipHeader() {
 		r.Header.Set("Content-Encoding", "gzip")
 	}
